@@ -123,6 +123,24 @@ INFO = {
  ('6','C18','m2'): ("poll builds its result from an err snapshot taken before it re-checks done: the failure lands entirely inside one poll", []),
  ('6','C19','m1'): ("the terminal state only moves forward (complete < error): an error reaches the observer after a completion was accepted", ['C01']),
  ('6','C19','m2'): ("the item path holds only a Weak to the terminated flag: terminal, then the other terminal closure is released, then a late item", ['C01']),
+ ('7','C03','m1'): ("sequence_equal marks the end with materialize() instead of map+concat: a compared source fails while the sequences are still equal - no verdict and no error (all sources failing at the same index: panic)", ['C04']),
+ ('7','C03','m2'): ("sample's trigger handler empties a temporary copy of the latch: the order item, tick, tick re-emits the old item", []),
+ ('7','C04','m1'): ("Subject::error notifies first and clears its observer map afterwards: a hot Subject that goes on after an error, under retry / retry_when / on_error_resume_next onto the same subject - the resubscription made inside the notification is wiped", ['C10']),
+ ('7','C04','m2'): ("Observer's first-terminal test-and-set became a read-locked test followed by a write-locked set: an error and a completion reach the same subscriber from two threads at once", ['C19', 'C01']),
+ ('7','C05','m1'): ("Using::drop returns early while the thread is panicking: the scope owning the guard is left by a panic", []),
+ ('7','C05','m2'): ("Observer::unsubscribe no longer clears the error slot: subscriber directly on a source that reports an error after it was unsubscribed", []),
+ ('7','C08','m1'): ("a post made on the worker thread itself runs inline: a task posts to its own scheduler while other tasks are queued", ['C09']),
+ ('7','C08','m2'): ("the worker drains the whole backlog at once (mem::take of the queue): two tasks queued while the worker is busy, abort while the first of the batch runs", []),
+ ('7','C09','m1'): ("AsyncFunctionQueue::post runs inline when called on its own worker: a downstream callback emits into the source of the same observe_on while earlier events are queued", ['C08']),
+ ('7','C09','m2'): ("lazily started worker with a check-then-set started flag: two emitter threads make the very first post at the same instant - two workers on one queue", ['C08']),
+ ('7','C10','m1'): ("ReplaySubject goes live before its hand-over backlog is delivered (buffer.take()): events buffered during the replay, then another pushed while the backlog is being delivered", ['C12']),
+ ('7','C10','m2'): ("BehaviorSubject's per-subscriber seen mark became a high-water mark: two overlapping producers (or a nested push with two observers) - the value dispatched later but stored earlier is dropped", ['C12']),
+ ('7','C12','m1'): ("ReplaySubject subscriber goes live before its backlog is delivered: still in replay, pushes get buffered, another push exactly while the buffered batch is being delivered overtakes it", ['C10']),
+ ('7','C12','m2'): ("BehaviorSubject's stale-version filter became a per-subscriber high-water mark: P1 stores n, P2 stores n+1, P2's broadcast reaches the observer before P1's", ['C10']),
+ ('7','C13','m1'): ("a buffered error discards the items buffered before it: a late subscriber of replay() is inside its hand-over, the source emits one more item and then fails", []),
+ ('7','C13','m2'): ("the replay loop returns early for a dead subscriber and skips the final clean-up: the first subscriber of replay() ends (take_until fired by the synchronous source itself) while it is still being registered, history non-empty", []),
+ ('7','C14','m1'): ("tap's error hook is consumed by the first subscription that fails (call_and_clear): the same tap observable subscribed again and failing again", []),
+ ('7','C14','m2'): ("amb keeps the winner of the race across subscriptions (cell created in execute): second subscription in which a different source fires first", []),
  ('3','C14','m2'): ("amb's winner cell hoisted out of the per-subscription closure: a second subscription in which a source in a different position signals first", []),
 }
 
